@@ -15,6 +15,15 @@ CHECKS = {
  "C04": ("exploration", "row-invariant monitor + exact acceptance classifier + output-mode observation",
          "Row invariants are asserted on every reported row; an exact classifier of histories decides accept/reject and the check demands the tool agrees, that shown rows are a correct prefix, that the message names an offending transaction and that rejected securities are absent from totals.",
          "Whole-run load-stage errors (unparsable rows, Tx validation, the global/per-affiliate split guard) are outside the iff, as the statement says 'among inputs whose rows all parse'.", "C04"),
+ "C06": ("exploration", "sum/rounding checker over reported tables in both precision modes + binary text/CSV outputs",
+         "For every generated many-year, many-security history the yearly figures, table totals, aggregate and 'Since inception' are recomputed from the reported rows (exact, tolerance 1e-18), every default-precision cell is compared with the half-away-from-zero rounding of the same cell at full precision, and a sample is run through the real acb binary to compare the CSV directory and text output with the render model.",
+         "Rounding oracle is applied to every dollar token; rejected securities' own totals are C04's business.", "C06"),
+ "C07": ("exploration", "metamorphic runtime monitor (admissible re-layouts of the same rows)",
+         "Each base input is re-laid-out K times (file partitions incl. empty pieces, column permutations, header case/padding, unrecognised columns, padded values, admissible row permutations) and every reported table, footer, error list and aggregate must be string-identical to the base run.",
+         "Only layouts the statement calls admissible are generated; both runs stopping at the load stage counts as agreement.", "C07"),
+ "C08": ("exploration", "metamorphic runtime monitor (A, B, A+B over disjoint securities, separate processes)",
+         "A, B and an interleaving A+B are run in different processes; each security's table and errors must be identical, errors must not name other securities, the combined aggregate must be the sum of the parts and in every run the aggregate must equal the securities' own totals.",
+         "B contains deliberately impossible rows; whole-run load-stage errors are excluded.", "C08"),
 }
 PENDING = {}
 
